@@ -25,7 +25,13 @@ fn trait_sig(m: &Method) -> String {
 }
 
 fn impl_fn(m: &Method, target: usize, deps: &[usize], generic_form: bool, vis: &str) -> String {
-    let bounds: Vec<String> = deps.iter().map(|d| format!("Dep{d}")).collect();
+    // deps 3 and 4 are two instantiations of one generic entraited trait: same path, different generic arguments
+    let bname = |d: &usize| match d {
+        3 => "GDep<i32>".to_string(),
+        4 => "GDep<u8>".to_string(),
+        d => format!("Dep{d}"),
+    };
+    let bounds: Vec<String> = deps.iter().map(bname).collect();
     let (g, dp) = if generic_form {
         (format!("<D{}>", if bounds.is_empty() { String::new() } else { format!(": {}", bounds.join(" + ")) }), "deps: &D".to_string())
     } else {
@@ -51,7 +57,11 @@ fn impl_fn(m: &Method, target: usize, deps: &[usize], generic_form: bool, vis: &
     // the block's fns really use their further dependencies
     let mut sum = String::from("0u32");
     for d in deps {
-        sum.push_str(&format!(" + deps.dep{d}()"));
+        match d {
+            3 => sum.push_str(" + <_ as GDep<i32>>::gdep(deps)"),
+            4 => sum.push_str(" + <_ as GDep<u8>>::gdep(deps)"),
+            d => sum.push_str(&format!(" + deps.dep{d}()")),
+        }
     }
     let args = if parts.is_empty() { "String::new()".to_string() } else { format!("[{}].join(\",\")", parts.join(", ")) };
     s.push_str(&format!("        let __r = format!(\"X{target}.{}|{{}}|{{}}|{{}}\", __id, {args}, {sum});\n        rt::trace(__r.clone());\n        __r\n    }}\n", m.tag));
@@ -92,6 +102,7 @@ pub fn gen_case(t: &mut Tape) -> Case {
     for d in 0..3 {
         src.push_str(&format!("#[::entrait::entrait(pub Dep{d})]\nfn dep{d}(_deps: &impl Sized) -> u32 {{ {} }}\n", d + 1));
     }
+    src.push_str("#[::entrait::entrait]\npub trait GDep<E> { fn gdep(&self) -> u32; }\n");
     src.push_str(&format!("/*GEN*/ #[::entrait::entrait({trait_attr})]\n{at}pub trait Tr {{\n"));
     for m in &methods {
         src.push_str(&format!("    {};\n", trait_sig(m)));
@@ -105,10 +116,10 @@ pub fn gen_case(t: &mut Tape) -> Case {
         }
         src.push_str(&format!("/*GEN*/ impl TrImpl for X{x} {{\n/*TWIN*/ impl X{x} {{\n"));
         for m in &methods {
-            let nd = t.weighted(&[3, 3, 2, 1]);
+            let nd = t.weighted(&[3, 3, 2, 1, 1]);
             let mut deps = vec![];
             for _ in 0..nd {
-                let d = t.choose(3);
+                let d = t.choose(5);
                 if !deps.contains(&d) {
                     deps.push(d);
                 }
@@ -130,6 +141,9 @@ pub fn gen_case(t: &mut Tape) -> Case {
         } else {
             src.push_str(&format!("pub struct A{a} {{ pub pad: u64 }}\n/*GEN*/ impl DelegateTr<Self> for A{a} {{ type Target = X{a}; }}\nfn mk_a{a}() -> A{a} {{ A{a} {{ pad: {a} }} }}\n"));
         }
+    }
+    for a in 0..n_apps {
+        src.push_str(&format!("impl GDep<i32> for A{a} {{ fn gdep(&self) -> u32 {{ 40 }} }}\nimpl GDep<u8> for A{a} {{ fn gdep(&self) -> u32 {{ 50 }} }}\n"));
     }
     src.push_str("pub fn run() -> Vec<String> {\n    let mut fails: Vec<String> = vec![];\n");
     for a in 0..n_apps {
@@ -201,7 +215,7 @@ pub const TAPE_LEN: usize = 160;
 
 pub fn run(ctx: &mut Ctx) {
     ctx.rule = "cases = a delegated trait (1..4 methods, repeated signatures, adjacent equal types, &mut arguments, sync/async with and without async_trait), static (`delegate_by = DelegateTr`) or \
-                dynamic (`delegate_by = ref`), with 2..3 competing target types each carrying an `#[entrait] impl TrImpl for X_k` block whose fns use 0..3 further entrait dependencies of `Impl<T>`, \
+                dynamic (`delegate_by = ref`), with 2..3 competing target types each carrying an `#[entrait] impl TrImpl for X_k` block whose fns use 0..4 further entrait dependencies of `Impl<T>` (including two instantiations of one generic trait), \
                 and one application per target; every method is called through Impl<A_k> and directly as `X_k::m(&app, ..)` with distinct values; results and one-entry traces \
                 (target tag, fn tag, deps address, args, sum of further dependencies) must agree; non-trivial = >=2 targets and (>=2 methods, >=2 same-typed args or >=1 further dependency); distinct = distinct program text"
         .into();
